@@ -17,14 +17,37 @@ VARIABLES l,            \* index of the next line to consume
           rt,           \* largest begin tick seen in this history (linearised concurrent runs)
           hinfo,        \* the "reset" line that started the current history (driver family, options)
           ever,         \* <<bucket, key, value>> of every put committed so far in this history
-          pend          \* the same for the puts of the transaction in progress
-tvars == <<vars, l, noteLines, rt, hinfo, ever, pend>>
+          pend,         \* the same for the puts of the transaction in progress
+          div,          \* at the last Close the process and the log disagreed (only a recorded deviation can cause that)
+          merged        \* a Merge returned nil in this history
+tvars == <<vars, l, noteLines, rt, hinfo, ever, pend, div, merged>>
 
 Ev == TLog[l]
 \* a call that panicked is recorded with a "panic" field: no action admits it (C20)
 \* C19: an event of a product run carries one digest of (operation, arguments,
 \* results) per storage configuration; all configurations must agree
-AltOK == "alt" \in DOMAIN Ev => \A j \in 1..Len(Ev.alt) : Ev.alt[j] = Ev.alt[1]
+\* C08: a read right after Open carries the digest of the same read right
+\* before Close ("cmp"); the two must be equal - unless the process and the
+\* log already disagreed at Close, which only a recorded deviation (SMove in
+\* memory only, a commit in doubt) can bring about
+\* Known finding F-C15-8: Merge drops every record of a list / set / sorted
+\* set that has become empty, so after a reopen the structure's bucket no
+\* longer exists and a read answers with an error where it answered
+\* "empty" (0, no members) before Close.
+F_MergeEmpty == "F-C15-8"
+AltSame == \A j \in 1..Len(Ev.alt) : Ev.alt[j] = Ev.alt[1]
+StructEmpty(a) ==
+  CASE a.op \in ListReads -> ListOf(mem, a.b, a.k) = <<>>
+    [] a.op \in {"sdiff", "sunion"} -> SetOf(mem, a.b, a.k) = {} \/ SetOf(mem, a.b2, a.k2) = {}
+    [] a.op \in SetReads -> SetOf(mem, a.b, a.k) = {}
+    [] a.op \in ZReads -> DOMAIN ZOf(mem, a.b) = {}
+    [] OTHER -> FALSE
+EmptyAfterMerge == /\ F_MergeEmpty \in Dev /\ merged /\ "berr" \in DOMAIN Ev
+                   /\ Ev.op \in ListReads \cup SetReads \cup ZReads /\ StructEmpty(Ev)
+                   /\ Ev.err # Ev.berr \/ ("bok" \in DOMAIN Ev /\ "ok" \in DOMAIN Ev /\ Ev.ok # Ev.bok)
+AltOK == "alt" \in DOMAIN Ev =>
+           \/ AltSame
+           \/ "cmp" \in DOMAIN Ev /\ (div \/ EmptyAfterMerge)
 Is(ops) == l <= Len(TLog) /\ Ev.op \in ops /\ "panic" \notin DOMAIN Ev /\ AltOK /\ l' = l + 1
 
 \* decode a recorded observation into the comparable form of Nuts!Obs*
@@ -36,7 +59,7 @@ ObsOf(o) ==
                            <<o.zs[i].nodes[j].k, o.zs[i].nodes[j].s, o.zs[i].nodes[j].v>>]>> :
              i \in {j \in 1..Len(o.zs) : o.zs[j].nodes # <<>>}}]
 
-TraceInit == Init /\ l = 1 /\ noteLines = {} /\ rt = 0 /\ hinfo = [op |-> "reset"] /\ ever = {} /\ pend = {} /\ TLCSet(1, 1)
+TraceInit == Init /\ l = 1 /\ noteLines = {} /\ rt = 0 /\ hinfo = [op |-> "reset"] /\ ever = {} /\ pend = {} /\ div = FALSE /\ merged = FALSE /\ TLCSet(1, 1)
 
 \* C14, real-time clause: a linearised concurrent history lists the
 \* transactions in lock-acquisition order; that order must extend real-time
@@ -184,12 +207,30 @@ TrCrash ==
         /\ notes' = notes \cup {F_MergeCrash}
         /\ UNCHANGED <<status, mem, log, tx>>
 
+\* The process died and the database is opened again on what it left behind
+\* (C10): recovery succeeds and the database now holds the transactions that
+\* had returned, or those plus the one whose Commit was in progress, in
+\* full - and goes on from there.
+TrCrashOpen ==
+  /\ Is({"crashopen"})
+  /\ ~Ev.err
+  /\ \/ log' = ClearDoubt(log)
+     \/ tx.st = "rw" /\ tx.recs # <<>> /\ log' = ClearDoubt(log) \o Stamp(tx.id, tx.recs)
+  /\ mem' = Replay(log')
+  /\ ObsMatches(ObsOf(Ev.o), mem', Ev.t0, Ev.t1)
+  /\ status' = "open" /\ tx' = NoTx
+  /\ UNCHANGED notes
+
 TraceNext ==
   /\ \/ TrReset \/ TrBegin \/ TrRead \/ TrMutate \/ TrFinished \/ TrCommit \/ TrRollback
-     \/ TrClose \/ TrOpen \/ TrMerge \/ TrObs \/ TrCopyObs \/ TrCrash \/ TrLost \/ TrMergeRace
-  /\ noteLines' = IF notes' = notes THEN noteLines ELSE noteLines \cup {<<l, notes' \ notes>>}
+     \/ TrClose \/ TrOpen \/ TrMerge \/ TrObs \/ TrCopyObs \/ TrCrash \/ TrCrashOpen \/ TrLost \/ TrMergeRace
+  /\ noteLines' = (IF notes' = notes THEN noteLines ELSE noteLines \cup {<<l, notes' \ notes>>})
+                   \cup (IF "cmp" \in DOMAIN Ev /\ ~AltSame /\ ~div THEN {<<l, {F_MergeEmpty}>>} ELSE {})
+  /\ merged' = IF Ev.op = "reset" THEN FALSE ELSE IF Ev.op = "merge" /\ ~Ev.err THEN TRUE ELSE merged
   /\ RealTimeOK /\ rt' = NextRt
   /\ hinfo' = IF Ev.op = "reset" THEN Ev ELSE hinfo
+  /\ div' = IF Ev.op = "reset" THEN FALSE
+            ELSE IF Ev.op = "close" /\ status = "open" THEN ~SameObs(Replay(log), mem, Ev.t0) ELSE div
   /\ pend' = IF Ev.op \in {"begin", "reset"} THEN {}
              ELSE IF Ev.op = "put" /\ ~Ev.err /\ ~IsFin THEN pend \cup {<<Ev.b, Ev.k, Ev.v>>} ELSE pend
   /\ ever' = IF Ev.op = "reset" THEN {}
@@ -204,7 +245,7 @@ TraceSpec == TraceInit /\ [][TraceNext]_tvars
 HighWater ==
   /\ TLCSet(1, IF TLCGet(1) < l THEN l ELSE TLCGet(1))
   /\ (DiagLine # 0 /\ l = DiagLine) =>
-        PrintT(<<"DIAG", l, [status |-> status, mem |-> mem, tx |-> tx, loglen |-> Len(log)]>>)
+        PrintT(<<"DIAG", l, [status |-> status, mem |-> mem, tx |-> tx, loglen |-> Len(log), replay |-> Replay(log)]>>)
   /\ (l = Len(TLog) + 1) => PrintT(<<"TRACE_NOTES", noteLines>>)
 
 TraceAccepted ==
